@@ -278,6 +278,8 @@ func init() {
 				var probe struct {
 					Mode string   `json:"mode"`
 					Seq  []string `json:"seq"`
+					Fam  string   `json:"fam"`
+					Toks []string `json:"toks"`
 				}
 				json.Unmarshal(raw, &probe)
 				type job struct {
@@ -286,7 +288,10 @@ func init() {
 					outs []abs.OutEntry
 				}
 				var jobs []job
-				if probe.Mode != "" {
+				if probe.Fam == "tok" {
+					// a token-kind string of MC_C03 (grown from a fixed prefix, pruned at the first non-viable token)
+					jobs = append(jobs, job{text: string(renderTokens(probe.Toks, 0).text)})
+				} else if probe.Mode != "" {
 					t := c09Text(probe.Mode, probe.Seq)
 					jobs = append(jobs, job{text: t})
 					if probe.Mode == "char" {
